@@ -388,6 +388,40 @@ theorem active_cover_up (kvs : Mesh) (d : Option Nat) (hg : GoodMesh kvs) {s : H
   rw [this]
   simp [lvl, HSpace.level, List.getD_eq_getElem?_getD, List.getElem?_drop]
 
+/-- **active cover, downward part (`_TP_to_HMesh_cells_down`).**  After any history, for any list
+`aux` of level-`lv` cells, entry `j` of the result (level `lv-j`) is exactly the set of active cells
+of level `lv-j` that are the `j`-th ancestor of some cell of `aux` (the unique active ancestor, by
+`tiling`). -/
+theorem active_cover_down (kvs : Mesh) (d : Option Nat) (hg : GoodMesh kvs) {s : HSpace}
+    (h : Reachable kvs d s) (lv : Nat) (hlv : lv < s.numlevels) (aux : List Idx)
+    (j : Nat) (hj : j ≤ lv) (c : Idx) :
+    c ∈ (tpDown ((s.levels.take (lv + 1)).reverse) aux).getD j [] ↔
+      c ∈ (s.level (lv - j)).act ∧ ∃ q ∈ aux, anc parTp j q = c := by
+  have hw := reachable_wf kvs d hg h
+  have hlen : ((s.levels.take (lv + 1)).reverse).length = lv + 1 := by
+    simp [HSpace.numlevels] at hlv ⊢; omega
+  have hl : ∀ i, i ≤ lv → lvl ((s.levels.take (lv + 1)).reverse) i = s.level (lv - i) := by
+    intro i hi
+    have hlen2 : (s.levels.take (lv + 1)).length = lv + 1 := by simpa using hlen
+    simp only [lvl, HSpace.level, List.getD_eq_getElem?_getD]
+    rw [List.getElem?_reverse (by omega), hlen2, List.getElem?_take]
+    have : lv + 1 - 1 - i = lv - i := by omega
+    rw [this, if_pos (by omega)]
+  rw [tpDown_mem _ aux j c (by omega), hl j hj]
+  constructor
+  · rintro ⟨h1, q, hq, hc, _⟩; exact ⟨h1, q, hq, hc⟩
+  · rintro ⟨h1, q, hq, hc⟩
+    refine ⟨h1, q, hq, hc, ?_⟩
+    intro j' hj' hact
+    rw [hl j' (by omega)] at hact
+    have hΩ : InΩ s.levels (lv - j + (j - j' - 1) + 1) (anc parTp j' q) := by
+      rw [show lv - j + (j - j' - 1) + 1 = lv - j' by omega]
+      exact Or.inl hact
+    have hde := anc_deact s.levels hw.2 (j - j' - 1) (lv - j) _ hΩ
+    rw [← anc_add, show j - j' - 1 + 1 + j' = j by omega, hc] at hde
+    obtain ⟨Ω, hΩ'⟩ := wf_level kvs hw (lv - j) (by omega)
+    exact hΩ'.disj c h1 hde
+
 /-! ## non-vacuity -/
 
 /-- a concrete two-step history (1-D, p = 2, knots `0,0,0,1,2,2,3,4,4,4`, disparity 1, second call
